@@ -22,13 +22,13 @@ theorem topic_lines {s : Srv} {b : Bot} (h : AtSrv s b) (sc : SChan) {ch : Chan}
     b.recvAll [emit s.cfg.server "332" [s.bot, sc.name, sc.topic], emit s.cfg.server "333" [s.bot, sc.name, s.cfg.server, ['0']]] =
       { b with channels := aset b.channels (lower sc.name) { ch with topic := sc.topic } } := by
   obtain ⟨hsv, hne⟩ := h.server
-  have hfeed := feed_server (b := b) hsv hne "332".toList [sc.name, sc.topic] (by simp only [Bot.ircCmd, cmdOf_332])
+  have hfeed := feed_server (b := b) h.isup hsv hne "332".toList [sc.name, sc.topic] (by simp only [Bot.ircCmd, cmdOf_332])
   rw [h.nick] at hfeed
   simp only [recvAll_cons, recv_emit, recvAll_nil]
   rw [hfeed]
   have hchan : b.chan sc.name = some ch := hch
   simp only [Bot.stateCmd, cmdOf_332, Bot.do332, hchan, Bot.setChan]
-  have h2 : AtSrv s { b with channels := aset b.channels (lower sc.name) { ch with topic := sc.topic } } := ⟨h.wf, h.nick⟩
+  have h2 : AtSrv s { b with channels := aset b.channels (lower sc.name) { ch with topic := sc.topic } } := ⟨h.wf, h.nick, h.isup⟩
   exact noop_line h2 "333".toList [sc.name, s.cfg.server, ['0']] cmdOf_333
 
 /-! ### RPL_CHANNELMODEIS -/
@@ -138,7 +138,7 @@ theorem mode_line {s : Srv} {b : Bot} (h : AtSrv s b) {k : Str} {sc : SChan} (hs
   subst hkey
   unfold Srv.modeIs
   simp only [recv_emit, List.cons_append, List.nil_append]
-  have hfeed := feed_server (b := b) hsv hne "324".toList
+  have hfeed := feed_server (b := b) h.isup hsv hne "324".toList
     (sc.name :: ('+' :: sc.modes.map (·.1)) :: sc.modes.filterMap (·.2)) (by simp only [Bot.ircCmd, cmdOf_324])
   rw [h.nick] at hfeed
   rw [hfeed]
@@ -152,7 +152,7 @@ theorem created_line {s : Srv} {b : Bot} (h : AtSrv s b) (sc : SChan) {ch : Chan
     ∃ ch', b.recv (emit s.cfg.server "329" [s.bot, sc.name, sc.created]) =
       { b with channels := aset b.channels (lower sc.name) ch' } ∧ ViewEq ch ch' := by
   obtain ⟨hsv, hne⟩ := h.server
-  have hfeed := feed_server (b := b) hsv hne "329".toList [sc.name, sc.created] (by simp only [Bot.ircCmd, cmdOf_329])
+  have hfeed := feed_server (b := b) h.isup hsv hne "329".toList [sc.name, sc.created] (by simp only [Bot.ircCmd, cmdOf_329])
   rw [h.nick] at hfeed
   have hcn : b.chan sc.name = some ch := hch
   simp only [recv_emit]
@@ -180,14 +180,14 @@ theorem ban_lines {s : Srv} (sc : SChan) (bans : List Str) :
   | cons m ms ih =>
     intro b ch h hch
     obtain ⟨hsv, hne⟩ := h.server
-    have hfeed := feed_server (b := b) hsv hne "367".toList [sc.name, m, s.cfg.server, ['0']] (by simp only [Bot.ircCmd, cmdOf_367])
+    have hfeed := feed_server (b := b) h.isup hsv hne "367".toList [sc.name, m, s.cfg.server, ['0']] (by simp only [Bot.ircCmd, cmdOf_367])
     rw [h.nick] at hfeed
     have hchan : b.chan sc.name = some ch := hch
     simp only [List.map_cons, recvAll_cons, recv_emit, List.foldl_cons]
     rw [hfeed]
     simp only [Bot.stateCmd, cmdOf_367, Bot.do367, hchan, Bot.setChan]
     rw [ih (b := { b with channels := aset b.channels (lower sc.name) { ch with bans := sadd ch.bans (lower m) } })
-      (ch := { ch with bans := sadd ch.bans (lower m) }) ⟨h.wf, h.nick⟩ (aget_aset_self _ _ _)]
+      (ch := { ch with bans := sadd ch.bans (lower m) }) ⟨h.wf, h.nick, h.isup⟩ (aget_aset_self _ _ _)]
     simp only [aset_aset]
 
 theorem foldl_sadd_mem (bans : List Str) (init : List Str) (x : Str) :
@@ -216,13 +216,13 @@ theorem late_replies_ignored {s : Srv} {b : Bot} (h : AtSrv s b) (name : Str) (h
   obtain ⟨hsv, hne⟩ := h.server
   have hchan : b.chan name = none := hnone
   refine ⟨?_, ?_, ?_⟩
-  · have hfeed := feed_server (b := b) hsv hne "324".toList (name :: rest) (by simp only [Bot.ircCmd, cmdOf_324])
+  · have hfeed := feed_server (b := b) h.isup hsv hne "324".toList (name :: rest) (by simp only [Bot.ircCmd, cmdOf_324])
     rw [h.nick] at hfeed
     rw [hfeed]; simp only [Bot.stateCmd, cmdOf_324, Bot.do324, hchan]
-  · have hfeed := feed_server (b := b) hsv hne "329".toList (name :: rest) (by simp only [Bot.ircCmd, cmdOf_329])
+  · have hfeed := feed_server (b := b) h.isup hsv hne "329".toList (name :: rest) (by simp only [Bot.ircCmd, cmdOf_329])
     rw [h.nick] at hfeed
     rw [hfeed]; simp only [Bot.stateCmd, cmdOf_329, Bot.do329, hchan]
-  · have hfeed := feed_server (b := b) hsv hne "367".toList (name :: rest) (by simp only [Bot.ircCmd, cmdOf_367])
+  · have hfeed := feed_server (b := b) h.isup hsv hne "367".toList (name :: rest) (by simp only [Bot.ircCmd, cmdOf_367])
     rw [h.nick] at hfeed
     rw [hfeed]; simp only [Bot.stateCmd, cmdOf_367, Bot.do367, hchan]
 
